@@ -174,9 +174,15 @@ pub fn get_msg() -> String {
 /// never unwinds: the library is not given a chance to touch freed memory
 /// after the first observable misbehaviour.
 pub fn violate(view: View, msg: &str) -> ! {
+    violate_any(view, 0, msg)
+}
+
+/// Like `violate`, but the misbehaviour also belongs to the views in `also`
+/// (e.g. a fault inside a Weak call is both a Weak and a memory violation).
+pub fn violate_any(view: View, also: u32, msg: &str) -> ! {
     let _t = arena::track_off();
     let sh = shared();
-    let enabled = sh.enabled_views & view.bit() != 0;
+    let enabled = sh.enabled_views & (view.bit() | also) != 0;
     sh.view = view as u32;
     sh.outcome = if view == View::Internal {
         Outcome::Internal as u32
@@ -265,7 +271,8 @@ extern "C" fn on_fault(sig: libc::c_int, info: *mut libc::siginfo_t, _ctx: *mut 
             3 => "inside a call on a Weak handle",
             _ => "in harness code",
         };
-        violate(view, &format!("{} {}", what, phase_s));
+        let also = if phase == Phase::WeakCall as u32 { View::Mem.bit() | View::Weak.bit() } else { 0 };
+        violate_any(view, also, &format!("{} {}", what, phase_s));
     }
 }
 
@@ -364,7 +371,8 @@ pub fn run_forked<F: FnOnce()>(enabled_views: u32, timeout_s: u32, body: F) -> C
                 } else {
                     let view = if deliberate { View::Abort } else { View::Crash };
                     res.view = view as u32;
-                    res.outcome = if enabled_views & view.bit() != 0 || enabled_views & View::Mem.bit() != 0 {
+                    let also = if sh.phase == Phase::WeakCall as u32 { View::Weak.bit() } else { 0 };
+                    res.outcome = if enabled_views & (view.bit() | View::Mem.bit() | also) != 0 {
                         Outcome::Violation
                     } else {
                         Outcome::OtherView
